@@ -21,10 +21,14 @@ FAR_MAGS = [3e-6, 1e-5, 1e-3, 1.0]        # all beyond the 1e-6 band of the stat
 NEAR_MAGS = [1e-12, 1e-9, 1e-7]
 
 
+SHIFT = [0.0]
+
+
 def members(cls, rng):
     """a few valid members (as arrays in the form the constructor takes)"""
     out = []
     for (a, b, c) in [(0, 0, 0), (0.3, -0.7, 1.1), (math.pi / 2, 0, 0), (2.0, 1.0, -2.5), (math.pi, 0, 0)]:
+        a, b, c = a + SHIFT[0], b - SHIFT[0] / 2, c + SHIFT[0] / 3         # thorough tier: the enumeration is repeated on other members
         R = gamma.rotz(a) @ gamma.roty(b) @ gamma.rotx(c)
         t = np.array([1.5, -2.0, 0.25])
         if cls == "SO3":
@@ -320,6 +324,26 @@ def predicate_args(pred, kind, rng):
            "SO2.isvalid": "SO2", "SE2.isvalid": "SE2", "SO3.isvalid": "SO3", "SE3.isvalid": "SE3",
            "Twist2.isvalid": "Twist2", "Twist3.isvalid": "Twist3", "isskewa": "Twist3"}.get(pred)
     out = []
+    if kind == "wrong-shape":
+        import gamma
+        R3, R2 = gamma.rotz(0.7) @ gamma.rotx(-0.4), gamma.rotz(0.7)[:2, :2]
+        T4, T3 = np.eye(4), np.eye(3)
+        T4[:3, :3], T3[:2, :2] = R3, R2
+        T4t, T3t = T4.copy(), T3.copy()
+        T4t[:3, 3], T3t[:2, 2] = [1.0, -2.0, 0.5], [1.0, -2.0]
+        q = np.array([0.5, -0.5, 0.5, 0.5])
+        pool = {"isrot": [R2, T4, T4t, R3[:, :2], np.array([R3, R3])], "SO3.isvalid": [R2, T4, T4t, R3[:, :2], q],
+                "isrot2": [R3, T3, T3t, R2[:, :1]], "SO2.isvalid": [R3, T3, T3t, q],
+                "ishom": [R3, T3t, T4t[:3, :], np.array([T4t, T4t])], "SE3.isvalid": [R3, T3t, T4t[:3, :], q],
+                "ishom2": [R2, T4t, T3t[:2, :]], "SE2.isvalid": [R2, T4t, T3t[:2, :], q],
+                # arrays of Euclidean / Frobenius norm exactly 1 that are not 4-vectors
+                "UnitQuaternion.isvalid": [R3 / math.sqrt(3.0), T4 / 2.0, np.array([0.6, 0.0, 0.8]), np.array([0.5, 0.5, 0.5, 0.3, 0.4]),
+                                           R2 / math.sqrt(2.0)]}
+        return [(a, 0.0) for a in pool[pred]]
+    if pred == "UnitQuaternion.isvalid":
+        qs = [np.array([0.5, -0.5, 0.5, 0.5]), np.array([1.0, 0.0, 0.0, 0.0]), np.array([0.0, 0.6, 0.0, -0.8])]
+        mags = [0.0] if kind == "unit" else NEAR_MAGS if kind == "near-unit" else FAR_MAGS
+        return [(qv * (1.0 + mg), mg) for mg in mags for qv in qs]
     if cls:
         mags = NEAR_MAGS if kind == "near" else FAR_MAGS
         if kind == "valid":
@@ -406,7 +430,7 @@ def predicate_args(pred, kind, rng):
 
 def predicate_case(j, e, rng):
     import spatialmath.base as base
-    from spatialmath import SO2, SE2, SO3, SE3, Twist2, Twist3
+    from spatialmath import SO2, SE2, SO3, SE3, Twist2, Twist3, UnitQuaternion
     call, expect = e["call"], e["expect"]
     pred, kind = call["pred"], call["kind"]
     fns = {"isR": lambda a: base.isR(a), "isrot": lambda a: base.isrot(a, check=True),
@@ -419,7 +443,8 @@ def predicate_case(j, e, rng):
            "SO2.isvalid": lambda a: SO2.isvalid(a, check=True), "SE2.isvalid": lambda a: SE2.isvalid(a, check=True),
            "SO3.isvalid": lambda a: SO3.isvalid(a, check=True), "SE3.isvalid": lambda a: SE3.isvalid(a, check=True),
            "Twist2.isvalid": lambda a: Twist2.isvalid(a, check=True),
-           "Twist3.isvalid": lambda a: Twist3.isvalid(a, check=True)}
+           "Twist3.isvalid": lambda a: Twist3.isvalid(a, check=True),
+           "UnitQuaternion.isvalid": lambda a: UnitQuaternion.isvalid(a, check=True)}
     args = list(predicate_args(pred, kind, rng))
     if expect == "false" and kind in ("nonorth", "scaled", "reflection", "lastrow"):
         # the same far arrays in SINGLE precision (the distance from the group is a property of the values, not of
@@ -455,13 +480,63 @@ def predicate_case(j, e, rng):
             j.ok(cid)
 
 
+def primitive_constructors(j, thorough):
+    """the membership predicates with check=True accept every value produced by the primitive constructors: every
+    constructor case of Ctor.tla (exact angles and valuations: axis lengths, non-orthogonal orientation / approach
+    vectors, special angles, both units) through every entry point; the value HELD by the object (or returned by the
+    base function) is given to the predicate of its class"""
+    import spatialmath.base as base
+    from spatialmath import SO2, SE2, SO3, SE3, UnitQuaternion
+    import ctorlib as cl
+    rc = run_tlc("MC_Ctor", "Ctor_thorough" if thorough else "Ctor_quick", timeout=600)
+    preds = {"SO2": lambda a: SO2.isvalid(a, check=True), "SE2": lambda a: SE2.isvalid(a, check=True),
+             "SO3": lambda a: SO3.isvalid(a, check=True), "SE3": lambda a: SE3.isvalid(a, check=True),
+             "UnitQuaternion": lambda a: UnitQuaternion.isvalid(a, check=True)}
+    n = 0
+    for case in rc.json:
+        if "fn" not in case or case["fn"] in ("v-norm", "v-interp"):
+            continue
+        exact_known = case["val"]["den"] != 0
+        for unit in ("rad", "deg"):
+            for label, thunk in (cl.entry_points(case, unit) if exact_known else cl.v_entry_points(case, unit)):
+                cid = ("primitive", label, case["fn"])
+                try:
+                    v = thunk()
+                except Exception:  # noqa: BLE001  (a constructor that raises holds nothing: C01's subject)
+                    continue
+                items = []
+                if hasattr(v, "data") and type(v).__name__ in preds:
+                    items = [(type(v).__name__ + ".isvalid", preds[type(v).__name__], a) for a in v.data]
+                elif isinstance(v, np.ndarray) and v.dtype.kind == "f":
+                    if v.shape == (4, 4):
+                        items = [("ishom", lambda a: base.ishom(a, check=True), v)]
+                    elif v.shape == (3, 3):
+                        items = [("ishom2", lambda a: base.ishom2(a, check=True), v)] if label in cl.PLANAR_HOM else \
+                            [("isrot", lambda a: base.isrot(a, check=True), v)]
+                    elif v.shape == (2, 2):
+                        items = [("isrot2", lambda a: base.isrot2(a, check=True), v)]
+                for pname, pred, a in items:
+                    n += 1
+                    try:
+                        ok = bool(pred(a))
+                    except Exception as ex:  # noqa: BLE001
+                        ok = False
+                    if not ok:
+                        j.fail("%s|%s|value-of-%s;%s|rejects-a-constructed-value" % (PID, pname, label.replace("|", "_"), case["fn"]),
+                               {"kind": "primitive", "entry": label, "case": case, "unit": unit, "value": np.asarray(a).tolist()}, cid)
+                    else:
+                        j.ok(cid)
+    return n
+
+
 def run(tier):
     j = Judge(PID)
     rng = random.Random(common.seed() + 6)
     r = run_tlc("MC_Validity", "Validity", timeout=300)
     seen = set()
-    for e in r.json:
-        key = str(e["call"])
+    for rep, e in [(rep, e) for rep in range(6 if tier == "thorough" else 1) for e in r.json]:
+        SHIFT[0] = [0.0, 0.37, -1.3, 2.2, 0.011, -2.9][rep]
+        key = str(e["call"]) + str(rep)
         if key in seen:
             continue
         seen.add(key)
@@ -477,7 +552,9 @@ def run(tier):
         raise MachineryError("validity export too small")
     j.sample({"case": r.json[100]})
     j.sample({"case": r.json[-5]})
-    cov = {"states": r.distinct, "transitions": r.generated, "traces_validated_against_impl": len(seen),
+    SHIFT[0] = 0.0
+    n_prim = primitive_constructors(j, tier == "thorough")
+    cov = {"constructed_values_given_to_predicates": n_prim, "states": r.distinct, "transitions": r.generated, "traces_validated_against_impl": len(seen),
            "exhaustive": True, "checker_cmd": r.cmd,
            "rule": "case = (class, container form, sequence of item kinds) or (predicate, argument kind); each realised "
                    "on 3 members x 3 magnitudes x varying entry; non-trivial = all"}
